@@ -586,7 +586,9 @@ def _pdf_cases():
     page = st.lists(line, min_size=1, max_size=3)
     return st.fixed_dictionaries({"mech": st.just("pdf"), "alg": st.sampled_from(list(pdfw.ALGORITHMS)), "user_pw": st.sampled_from(["", "", "pw123", "äö secret"]),
                                   "owner_pw": st.sampled_from([None, None, "owner", "pw123", ""]), "pages": st.lists(page, min_size=1, max_size=3), "compress": st.booleans(),
-                                  "image": st.booleans(), "title": st.one_of(st.none(), _tok()), "align16": st.booleans()})
+                                  "image": st.booleans(), "title": st.one_of(st.none(), _tok()), "align16": st.booleans(),
+                                  # split crypt filters (AES-128 only): streams in clear, strings encrypted
+                                  "strings_only": st.sampled_from([False, False, True])})
 
 
 # ---------------------------------------------------------------------------------------------------------------
@@ -632,7 +634,7 @@ def _pdf_build(m):
             if n % 16 == 0:
                 break
     # owner_pw None: no owner password (pypdf then uses the user password for both, so decrypt("") answers "owner password matched")
-    enc = pdfw.encrypt_pdf(plain, user_password=m["user_pw"], owner_password=m["owner_pw"], algorithm=m["alg"])
+    enc = pdfw.encrypt_pdf(plain, user_password=m["user_pw"], owner_password=m["owner_pw"], algorithm=m["alg"], strings_only=bool(m.get("strings_only")) and m["alg"] == "AES-128")
     return plain, enc
 
 
